@@ -489,9 +489,11 @@ pub fn gen_pipes(rng: &mut Rng, tier: &Tier) -> Vec<Case> {
                 c.push(format!("psink 1 {}", rng.range(-5, 5)));
                 if rng.chance(1, 3) {
                     c.push("pfin 1".into());
+                    c.push("palive 1".into());
                 }
             }
             c.push("pfin 1".into());
+            c.push("palive 1".into());
             c.push("plog 1".into());
             cases.push(c);
         }
